@@ -25,6 +25,7 @@
 #include "hep/mc/multi_channel_summary.hpp"
 
 #include <cmath>
+#include <cstdio>
 #include <fstream>
 #include <iostream>
 #include <string>
@@ -130,8 +131,17 @@ public:
         if ((mode_ == callback_mode::silent_and_write_chkpt) ||
             (mode_ == callback_mode::verbose_and_write_chkpt))
         {
-            std::ofstream out(filename_);
-            chkpt.serialize(out);
+            // write into a temporary file first and rename it afterwards: if the program is killed
+            // while writing, `filename_` still contains the complete checkpoint of the previous
+            // iteration instead of a truncated one
+            std::string const tmp_filename = filename_ + ".tmp";
+
+            {
+                std::ofstream out(tmp_filename);
+                chkpt.serialize(out);
+            }
+
+            std::rename(tmp_filename.c_str(), filename_.c_str());
         }
 
         return perform_more_iterations;
